@@ -71,6 +71,10 @@ def make_data(desc, live_base=None):
     S = S + rs.randn(d) * float(desc.get("offset", 1.0))
     if desc.get("global_scale"):
       S = S * float(desc["global_scale"])
+  if desc.get("int_rows"):      # some rows hold whole numbers only
+    ri = np_stream(seed, "int-rows")
+    mk = ri.rand(N) < float(desc["int_rows"])
+    S[mk] = np.round(S[mk])
   if desc.get("dups"):          # identical rows at different indices
     rd = np_stream(seed, "dups")
     for _ in range(int(desc["dups"])):
